@@ -289,10 +289,10 @@ impl<'a> Bfs<'a> {
         digraph.wf(),
         sources.obeys_prophetic_iter_laws(),
         sources.decrease() is Some,
-        sources.remaining().no_duplicates(),
     ensures
         r.digraph == digraph,
-        r.fresh(),
+        r.wf(),
+        sources.remaining().no_duplicates() ==> r.fresh(),
         r.queue@ == sources.remaining(),
         forall|i: int| 0 <= i < sources.remaining().len() ==> #[trigger] sources.remaining()[i] < digraph.ord(),
     @loop 1
@@ -326,7 +326,7 @@ impl<'a> Bfs<'a> {
         proof {
             let s = sources.remaining();
             assert(queue@ =~= s);
-            assert(qv_of1(queue@).no_duplicates());
+            if s.no_duplicates() { assert(qv_of1(queue@).no_duplicates()); }
             assert forall|v: int| #[trigger] is_vis(visited@, v) <==> qv_of1(queue@).contains(v) by {
                 if is_vis(visited@, v) {
                     let j = choose|j: int| 0 <= j < s.len() && j < s.len() && #[trigger] s[j] == v;
@@ -532,10 +532,10 @@ impl<'a> BfsDist<'a> {
         digraph.wf(),
         sources.obeys_prophetic_iter_laws(),
         sources.decrease() is Some,
-        sources.remaining().no_duplicates(),
     ensures
         r.digraph == digraph,
-        r.fresh(),
+        r.visited@.len() == digraph.ord(),
+        sources.remaining().no_duplicates() ==> r.fresh(),
         r.queue@.len() == sources.remaining().len(),
         forall|i: int| 0 <= i < sources.remaining().len() ==> #[trigger] r.queue@[i] == (sources.remaining()[i], 0usize),
         forall|i: int| 0 <= i < sources.remaining().len() ==> #[trigger] sources.remaining()[i] < digraph.ord(),
@@ -548,25 +548,25 @@ impl<'a> BfsDist<'a> {
         it1.seq() == sources.remaining(),
         order == digraph.ord(),
         visited@.len() == order,
-        it1.seq().no_duplicates(),
         queue@.len() == it1.index(),
         forall|i: int| 0 <= i < it1.index() ==> #[trigger] queue@[i] == (it1.seq()[i], 0usize),
         forall|i: int| 0 <= i < it1.index() ==> #[trigger] it1.seq()[i] < order,
         forall|v: int| 0 <= v < order ==> #[trigger] visited@[v] == seen_upto(it1.seq(), it1.index(), v),
-        ct(visited@) == it1.index(),
+        it1.seq().no_duplicates() ==> ct(visited@) == it1.index(),
     @loop_start 1
         let ghost vis_pre = visited@;
     @loop_end 1
         proof {
             let k = it1.index();
             assert(u == it1.seq()[k]);
-            assert(it1.seq().no_duplicates());
-            assert(vis_pre[u as int] == seen_upto(it1.seq(), k, u as int));
-            if vis_pre[u as int] {
-                let j = choose|j: int| 0 <= j < k && j < it1.seq().len() && #[trigger] it1.seq()[j] == u;
-                assert(it1.seq()[j] == it1.seq()[k]);
+            if it1.seq().no_duplicates() {
+                assert(vis_pre[u as int] == seen_upto(it1.seq(), k, u as int));
+                if vis_pre[u as int] {
+                    let j = choose|j: int| 0 <= j < k && j < it1.seq().len() && #[trigger] it1.seq()[j] == u;
+                    assert(it1.seq()[j] == it1.seq()[k]);
+                }
+                lemma_ct_set(vis_pre, u as int);
             }
-            lemma_ct_set(vis_pre, u as int);
             assert forall|v: int| 0 <= v < order implies #[trigger] visited@[v] == seen_upto(it1.seq(), k + 1, v) by {
                 if seen_upto(it1.seq(), k, v) {
                     let j = choose|j: int| 0 <= j < k && j < it1.seq().len() && #[trigger] it1.seq()[j] == v;
@@ -582,7 +582,7 @@ impl<'a> BfsDist<'a> {
     @fn_end
         proof {
             let s = sources.remaining();
-            assert forall|i: int, j: int| 0 <= i < j < qv_of(queue@).len() implies qv_of(queue@)[i] != qv_of(queue@)[j] by {
+            assert forall|i: int, j: int| s.no_duplicates() && 0 <= i < j < qv_of(queue@).len() implies qv_of(queue@)[i] != qv_of(queue@)[j] by {
                 assert(queue@[i] == (s[i], 0usize));
                 assert(queue@[j] == (s[j], 0usize));
             }
@@ -665,16 +665,14 @@ impl<'a> BfsDist<'a> {
     requires
         old(self).fresh(),
     ensures
+        final(self).wf(),
+        final(self).queue@.len() == 0,
         r@.len() == old(self).digraph.ord(),
         forall|v: int| 0 <= v < r@.len() ==> (#[trigger] r@[v] == usize::MAX <==> !reachable(old(self).has(), old(self).srcs(), v)),
         forall|v: int| 0 <= v < r@.len() && #[trigger] r@[v] != usize::MAX ==> is_min_walk_weight(old(self).has(), unit_w(), old(self).srcs(), v, r@[v] as int),
     @fn_start
         proof { self.lemma_fresh_inv(); lemma_ct_bounds(self.visited@); }
-    @before `for (u, w) in self`
-        let ghost mut prev = *self;
     @loop 1
-    invariant_except_break
-        prev == *self,
     invariant
         self.wf(),
         self.digraph == old(self).digraph,
@@ -693,8 +691,8 @@ impl<'a> BfsDist<'a> {
             assert(prev.inv(old(self).srcs()));
             assert(next_sem2(prev.digraph, prev.queue@, prev.visited@, self.queue@, self.visited@, old(self).srcs()));
         }
-    @loop_end 1
-        proof { prev = *self; }
+    @before_call 1
+        let ghost prev = *self;
     @fn_end
         proof {
             lemma_exhausted2(self.digraph, self.queue@, self.visited@);
